@@ -14,8 +14,10 @@ extern crate rustc_ast;
 extern crate rustc_data_structures;
 extern crate rustc_driver;
 extern crate rustc_hir;
+extern crate rustc_infer;
 extern crate rustc_interface;
 extern crate rustc_lint;
+extern crate rustc_trait_selection;
 extern crate rustc_middle;
 extern crate rustc_session;
 extern crate rustc_span;
@@ -988,6 +990,16 @@ fn emit(tcx: TyCtxt<'_>, dir: &str, name: &str) {
 				let env = ty::TypingEnv::post_analysis(tcx, did);
 				if tcx.generics_of(did).is_empty() {
 					av.push(("freeze", J::Bool(ty.is_freeze(tcx, env))));
+					// auto traits: Send / Sync (type-level witness for thread-safety claims)
+					use rustc_infer::infer::TyCtxtInferExt;
+					use rustc_trait_selection::infer::InferCtxtExt;
+					let (infcx, penv) = tcx.infer_ctxt().build_with_typing_env(env);
+					if let Some(send) = tcx.get_diagnostic_item(rustc_span::sym::Send) {
+						av.push(("send", J::Bool(infcx.type_implements_trait(send, [ty], penv).must_apply_modulo_regions())));
+					}
+					if let Some(sync) = tcx.lang_items().sync_trait() {
+						av.push(("sync", J::Bool(infcx.type_implements_trait(sync, [ty], penv).must_apply_modulo_regions())));
+					}
 				}
 				span_info(tcx, tcx.def_span(did), &mut av);
 				adts.push(obj(av));
